@@ -115,6 +115,21 @@ impl<'a> Interpreter<'a> {
         }
     }
 
+    /// Creates an interpreter that evaluates code on behalf of `parent`, i.e. the body of a
+    /// macro. The call depth of the parent is carried over, so evaluation nested through
+    /// macro bodies is still bounded.
+    pub fn child_of(
+        parent: &Interpreter,
+        cel: &'a CelContext,
+        bindings: &'a BindContext,
+    ) -> Interpreter<'a> {
+        Interpreter {
+            cel: Some(cel),
+            bindings: Some(bindings),
+            depth: ScopedCounter::with_count(parent.depth.count()),
+        }
+    }
+
     pub fn empty() -> Interpreter<'a> {
         Interpreter {
             cel: None,
